@@ -577,7 +577,14 @@ def _iter_segments(
                                 slice_start,
                                 element.template_slice.stop + tfs_offset,
                             ),
-                            element.template_slice,
+                            # NOTE: If part of the element was already yielded
+                            # (split whitespace), this piece only occupies the
+                            # remainder of the element's templated slice.
+                            slice(
+                                element.template_slice.start
+                                + consumed_element_length,
+                                element.template_slice.stop,
+                            ),
                             templated_file,
                         ),
                         subslice=slice(consumed_element_length, None),
@@ -620,7 +627,9 @@ def _iter_segments(
                                 "Found literal whitespace with stashed idx!"
                             )
                         incremental_length = (
-                            tfs.templated_slice.stop - element.template_slice.start
+                            tfs.templated_slice.stop
+                            - element.template_slice.start
+                            - consumed_element_length
                         )
                         yield element.to_segment(
                             pos_marker=PositionMarker(
@@ -630,7 +639,13 @@ def _iter_segments(
                                     + tfs_offset,
                                     tfs.templated_slice.stop + tfs_offset,
                                 ),
-                                element.template_slice,
+                                # Each piece of a split element occupies its own
+                                # part of the element's templated slice.
+                                slice(
+                                    element.template_slice.start
+                                    + consumed_element_length,
+                                    tfs.templated_slice.stop,
+                                ),
                                 templated_file,
                             ),
                             # Subdivide the existing segment.
@@ -676,9 +691,10 @@ def _iter_segments(
                         if stashed_source_idx is not None:
                             slice_start = stashed_source_idx
                         else:
-                            slice_start = (
-                                tfs.source_slice.start + consumed_element_length
-                            )
+                            # NOTE: Anything already consumed from this element
+                            # was consumed from an *earlier* slice, so it doesn't
+                            # offset the position within this one.
+                            slice_start = tfs.source_slice.start
                         yield element.to_segment(
                             pos_marker=PositionMarker(
                                 slice(
@@ -687,7 +703,11 @@ def _iter_segments(
                                     # slice. We can't subdivide any better.
                                     tfs.source_slice.stop,
                                 ),
-                                element.template_slice,
+                                slice(
+                                    element.template_slice.start
+                                    + consumed_element_length,
+                                    element.template_slice.stop,
+                                ),
                                 templated_file,
                             ),
                             subslice=slice(consumed_element_length, None),
